@@ -25,7 +25,7 @@ COMPONENTS = {"real": ["binary diff encoder (binarydiff.c)", "archive writer/rea
               "simulated": ["snapshot-instant observer (fopen seam)", "wall clock incl. jumps", "heap placement (hostile allocator: garbage fill, always-move realloc, poison)"]}
 ASSUMPTIONS = ["the serialiser is idempotent (calling it from the fopen observer right before the library calls it does not change what the library writes)",
                "callbacks are re-attached to every loaded snapshot before it is compared (field 87 records only whether any callback is set)"]
-PROBES = ["vanished_field_history", "grew_past_128", "N_dropped_to_zero", "reopened", "auto_step_snapshots", "auto_interval_snapshots", "merge_changed_N", "op_raised"]
+PROBES = ["vanished_field_history", "grew_past_128", "N_dropped_to_zero", "reopened", "auto_step_snapshots", "auto_interval_snapshots", "merge_changed_N", "op_raised", "returned_to_first_snapshot_time"]
 
 INTEGS = ["ias15", "whfast", "saba", "eos", "leapfrog", "janus", "mercurius", "trace", "bs", "sei", "none"]
 SETS = [("softening", [0.0, 1e-3]), ("exit_max_distance", [0.0, 500.0]), ("ri_ias15.epsilon", [1e-9, 1e-7]), ("ri_ias15.adaptive_mode", [0, 1, 2, 3]),
@@ -64,7 +64,7 @@ def generate(rng, tier, index):
         kind = o.weighted([("steps", 26), ("integrate", 10), ("snapshot", 24), ("add", 8), ("add_many", 1.5), ("remove", 8), ("remove_hash", 3),
                            ("remove_all", 2), ("switch", 6), ("reset_integrator", 4), ("set", 6), ("add_variation", 2), ("megno", 1),
                            ("display_settings", 1), ("move", 3), ("sync", 3), ("arm", 6 if auto else 0), ("clock_jump", 2),
-                           ("reopen", 3), ("signed_zero", 2.5), ("add_overlap", 4 if merge else 0), ("set_lrescale", 3 if (cfg.get("var") or cfg.get("megno")) else 0.3)])
+                           ("reopen", 3), ("signed_zero", 2.5), ("back_to_t0", 2.5 if not auto else 0), ("add_overlap", 4 if merge else 0), ("set_lrescale", 3 if (cfg.get("var") or cfg.get("megno")) else 0.3)])
         if kind == "steps":
             ops.append(dict(op="steps", n=o.randint(1, 12)))
         elif kind == "integrate":
@@ -117,6 +117,15 @@ def generate(rng, tier, index):
                 ops.append(dict(op="arm", kind="interval", value=abs(cfg["dt"]) * o.choice([1.0, 2.5, 4.0, 9.0])))
         elif kind == "clock_jump":
             ops.append(dict(op="clock_jump", us=o.choice([3600 * 10**6, -3600 * 10**6, 10**12, -10**9])))
+        elif kind == "back_to_t0":
+            # time is not monotone in general: return to exactly the time of the first snapshot (a delta then carries no t field at all)
+            if not any(x["op"] == "snapshot" for x in ops):
+                ops.append(dict(op="snapshot"))
+                ops.append(dict(op="steps", n=o.randint(1, 6)))
+                ops.append(dict(op="snapshot"))
+            ops.append(dict(op="back_to_t0", how=o.choice(["assign", "integrate"])))
+            if o.chance(0.8):
+                ops.append(dict(op="snapshot"))
         elif kind == "signed_zero":
             ops.append(dict(op="signed_zero", pick=o.randint(0, 20), coord=o.choice(["vz", "z", "vy"]), neg=o.choice([0, 1])))
             if o.chance(0.5):
@@ -160,7 +169,7 @@ def execute(case, ctx):
 
     def obs(p, mode):
         s = box["sim"]
-        model.append(dict(b=rb.save_bytes(s), t=s.t, steps=s.steps_done, auto=state["in_integrate"]))
+        model.append(dict(b=rb.save_bytes(s), a=rb.A(s), t=s.t, steps=s.steps_done, auto=state["in_integrate"]))
     rb.set_fopen_observer(obs)
     kinds = []
     last_snap_kindpos = 0
@@ -205,6 +214,18 @@ def execute(case, ctx):
                             sim.synchronize()       # careful-user protocol (see harness/ops.py): positions are read and a particle is added
                             q = sim.particles[op["pick"] % sim.N]
                             OPS.apply(rebound, rb, sim, cfg, dict(op="add", p=dict(m=1e-9, x=q.x + 5e-5, y=q.y, z=q.z, vx=q.vx, vy=q.vy, vz=q.vz, r=1e-4, hash=op["hash"])))
+                    elif k == "back_to_t0":
+                        if model and not state.get("armed") and sim.N - sim.N_var > 0:
+                            t0 = model[0]["t"]
+                            if op["how"] == "assign" or sim.integrator == "trace" or sim.N_active == 0:
+                                sim.ri_whfast.keep_unsynchronized = 0
+                                sim.ri_saba.keep_unsynchronized = 0
+                                sim.synchronize()
+                                sim.t = t0
+                            else:
+                                sim.integrate(t0, exact_finish_time=1)
+                            if rb.dbits(sim.t) == rb.dbits(t0) and len(model) > 1:
+                                probe("returned_to_first_snapshot_time")
                     elif k == "reopen":
                         if model:
                             new = rebound.Simulation(path)
@@ -315,6 +336,9 @@ def execute(case, ctx):
             simgen.attach_callbacks(rebound, rb, s, cfg)
             rb.hb_attach(s)
             d = rb.S_diff(rb.S(s), rb.S_of_bytes(model[k]["b"]))
+            if not d:
+                # and through memory: the arrays of the loaded snapshot against the live arrays at the moment the snapshot was written
+                d = rb.S_diff(rb.A(s), model[k]["a"])
         if d:
             viol("content", "snapshot differs from live state when taken", "snapshot %d of %d differs in fields %s; history %s" % (k, sa.nblobs, rb.describe_fields(d), kinds), key="content:snapshot-differs")
             return result
